@@ -288,7 +288,7 @@ Proof using no_nul.
     apply swp_bind. apply swp_mono with (Q := fun _ s6 => MarkOK s6 /\ pkeeps s5 s6).
     { destruct (N.eqb indent 0); [|apply swp_ret; split; [eexists; exact M5|pk]].
       apply swp_bind. apply (pwp_look orig no_nul _ _ _ s5 M5). intros s6 M6 R6 I6.
-      apply swp_next_is_document_end. intros r. split; [eexists; exact M6|pk]. }
+      apply swp_next_is_document_indicator. intros r. split; [eexists; exact M6|pk]. }
     intros de s6 [M6 K6]. destruct de; [apply swp_ret; split; assumption|].
     apply swp_bind. apply swp_next_is. cbv zeta.
     apply swp_bind. eapply swp_mono; [apply pos_content_line; exact M6|]. cbv beta.
